@@ -720,6 +720,10 @@ func (h *histGen) newLabel() string {
 		}
 	case 6:
 		n = fmt.Sprintf("boucle_%cé%d", wideRunes[h.g.Intn(len(wideRunes))], h.nlabel) // UTF-8 names
+	case 8:
+		// names that mean something to a formatter or a parser: format verbs, quotes, separators, blanks,
+		// the empty name
+		n = []string{"%d", "%s", "%!", "%v%v", "100%", "%[2]d", "a b", "a\tb", "\"q\"", "a;b", "a:b", "a,b", "$1234", "#1", "(x)", "", " ", "a\x00b", "\\n"}[h.g.Intn(19)]
 	case 5:
 		// names other assemblers give a meaning to: anonymous labels, local labels, current-address symbols
 		n = []string{"+", "-", "++", "--", "+-", "*", "@", "@@", "$", ".", "1f", "1b", "_"}[h.g.Intn(13)]
